@@ -139,6 +139,61 @@ def run(tier, seed):
                 check("melody.overall_accuracy", lambda: m.overall_accuracy(rv, rc, evv, ec, **kw), [fr(o["oa"])], d)
             ev.case((kind, i), nontrivial=True)
         ev.sample({"model": cfg, "row": rows[len(rows) // 2]})
+    # beat tracking: P-score, Goto, Cemgil (spec gives the combinatorial terms, exp() is evaluated here)
+    res = tlc.run("MC_C04_beat", cfg="MC_C04_beat_T" if thorough else "MC_C04_beat", timeout=3400, heap="8g")
+    brow = res["rows"]["ROW"]
+    if len(brow) * 2 != res["distinct"]:
+        raise Machinery("MC_C04_beat: %d rows for %d states" % (len(brow), res["distinct"]))
+    ev.tlc("MC_C04_beat", res, "Beat.tla (P-score, Goto, Cemgil terms); invariant SelfPerfect")
+    BU = 0.25
+    import math
+    for k, r in enumerate(brow):
+        if not thorough and (k + seed) % 4:
+            continue
+        ref, est = np.array(r["ref"], dtype=float) * BU + 5.0, np.array(r["est"], dtype=float) * BU + 5.0
+        o = r["out"]
+        d = {"ref": ref.tolist(), "est": est.tolist()}
+        thr = fr(r["thr"])
+        if o["ps"]["defined"] and not o["ps"]["tie"]:
+            check("beat.p_score", lambda: me.beat.p_score(ref, est, p_score_threshold=thr) if r["thr"] != [1, 5] else me.beat.p_score(ref, est),
+                  [fr(o["ps"]["score"])], dict(d, threshold=thr))
+        else:
+            skipped += 1
+        check("beat.goto", lambda: me.beat.goto(ref, est), [float(o["goto"])], d)
+        check("beat.goto", lambda: me.beat.goto(ref, est, goto_threshold=0.25, goto_mu=0.25, goto_sigma=0.5), [float(o["goto2"])], dict(d, params="(.25,.25,.5)"))
+        for sigma in (0.04, 0.25):
+            accs = [sum(math.exp(-(sq * BU * BU) / (2.0 * sigma ** 2)) for sq in v["sq"]) / (0.5 * v["norm2"]) for v in o["cem"]]
+            kw = {} if sigma == 0.04 else {"cemgil_sigma": sigma}
+            check("beat.cemgil", lambda: me.beat.cemgil(ref, est, **kw), [accs[0], max(accs)], dict(d, sigma=sigma))
+        ev.case(("beat", r["ref"], r["est"], r["thr"]), nontrivial=o["ps"]["score"][0] > 0)
+    ev.sample({"model": "MC_C04_beat", "row": brow[len(brow) // 2]})
+    # pattern discovery scores
+    res = tlc.run("MC_C04_pattern", cfg="MC_C04_pattern", timeout=3000, heap="8g")
+    prow = res["rows"]["ROW"]
+    if len(prow) * 2 != res["distinct"]:
+        raise Machinery("MC_C04_pattern: %d rows for %d states" % (len(prow), res["distinct"]))
+    ev.tlc("MC_C04_pattern", res, "Pattern.tla definitions; invariants InRange, SwapSym, SelfPerfect")
+    pt = me.pattern
+
+    def pats(A):
+        return [[[(float(o) * 0.5, float(m)) for o, m in occ] for occ in p] for p in A]
+    for k, r in enumerate(prow):
+        if not thorough and (k + seed) % 2:
+            continue
+        R_, E_ = pats(r["ref"]), pats(r["est"])
+        o = r["out"]
+        d = {"ref": R_, "est": E_}
+        f3 = lambda x: [fr(x["f"]), fr(x["p"]), fr(x["r"])]  # noqa
+        check("pattern.standard_FPR", lambda: pt.standard_FPR(R_, E_), f3(o["std"]), d)
+        check("pattern.establishment_FPR", lambda: pt.establishment_FPR(R_, E_), f3(o["est"]), d)
+        check("pattern.occurrence_FPR", lambda: pt.occurrence_FPR(R_, E_, thres=0.5), f3(o["occ5"]), dict(d, thres=0.5))
+        check("pattern.occurrence_FPR", lambda: pt.occurrence_FPR(R_, E_), f3(o["occ75"]), dict(d, thres="default"))
+        check("pattern.three_layer_FPR", lambda: pt.three_layer_FPR(R_, E_), f3(o["three"]), d)
+        if R_ and E_:
+            check("pattern.first_n_three_layer_P", lambda: pt.first_n_three_layer_P(R_, E_, n=1), [fr(o["ffp"])], d)
+            check("pattern.first_n_target_proportion_R", lambda: pt.first_n_target_proportion_R(R_, E_, n=1), [fr(o["fftp"])], d)
+        ev.case(("pattern", r["ref"], r["est"]), nontrivial=bool(R_ and E_))
+    ev.sample({"model": "MC_C04_pattern", "row": prow[len(prow) // 2]})
     # the whole key domain
     res = tlc.run("MC_Key", cfg="MC_Key", timeout=600)
     ev.tlc("MC_Key", res, "whole key domain: relationship table")
@@ -155,8 +210,9 @@ def run(tier, seed):
     ev.cov["exhaustive"] = True
     ev.d["assumptions"] = ["time unit 1/8 s (1/16 s for notes), cents given directly to the melody measures, integer tempi; a tempo "
                            "relative error exactly on the tolerance is exempt, as the property states",
-                           "AOR, Cemgil/Goto/P-score/continuity/information gain and the pattern scores are handled in MC_C04b "
-                           "(see DESIGN.md for what is and is not covered)"]
+                           "Cemgil: the spec supplies the squared distances and normalisers of the five metrical variations, exp() is "
+                           "evaluated by the harness; Goto is transcribed from the documented procedure; P-score rows whose window "
+                           "rounding is an exact .5 tie are skipped; continuity and information gain are not yet specified"]
     code = rep.finish()
     ev.write(violations=len(rep.violations))
     return code
